@@ -497,6 +497,15 @@ impl Ws {
         Ws { tw, root, outside }
     }
 
+    pub fn with_settings(settings: &jj_lib::settings::UserSettings) -> Ws {
+        let tw = TestWorkspace::init_with_settings(settings);
+        let root = tw.workspace.workspace_root().to_owned();
+        let outside = tw.env.root().join("outside");
+        std::fs::create_dir(&outside).unwrap();
+        std::fs::write(outside.join(SENTINEL), b"sentinel").unwrap();
+        Ws { tw, root, outside }
+    }
+
     pub fn store(&self) -> std::sync::Arc<Store> {
         self.tw.repo.store().clone()
     }
